@@ -423,6 +423,24 @@ def rule_metric_store(ctx, rid):
         ctx.passed(rid, fi, c)
     else:
         ctx.violation(rid, fi, c, 'add_cycle_metric bypasses the guarded store')
+    # a metric array handed to the container is stored by reference in some routes: recoding it in place (NaN -> -1
+    # for integer metrics) would rewrite a metric stored earlier from the same array, and the caller's data
+    from ..effects import MutationAnalysis
+    ma = MutationAnalysis(P)
+    for q in ('emd.cycles.Cycles.add_cycle_metric', 'emd.cycles.Cycles.compute_cycle_metric',
+              'emd.cycles.Cycles.compute_chain_metric', 'emd.cycles.Cycles._safe_add_metric'):
+        f2 = P.func(q)
+        mp = ma.mutated_params(f2)
+        for formal in f2.params:
+            if formal in ('self', 'name', 'func', 'dtype', 'mode'):
+                continue
+            c = 'metric values %s are not modified in place' % formal
+            if formal in mp:
+                ctx.violation(rid, f2, c, 'the array passed as %s is changed in place (%s): a metric stored earlier from '
+                              'the same array, and the caller\'s data, are rewritten by a later operation'
+                              % (formal, mp[formal][0].what), node=mp[formal][0].node)
+            else:
+                ctx.passed(rid, f2, c)
     for node in walk_local(fi.node):
         if isinstance(node, ast.Return) and isinstance(node.value, ast.Call) and unparse(node.value.func).endswith('Error'):
             ctx.note(rid, fi, 'length mismatch returns an exception object',
